@@ -2,6 +2,7 @@ package vsys
 
 import (
 	"fmt"
+	"strings"
 
 	"golang.org/x/sys/unix"
 )
@@ -16,12 +17,13 @@ const efdMax = ^uint64(0) - 1 // 0xfffffffffffffffe
 
 // epItem is one registration in an epoll instance, keyed by (fd, file).
 type epItem struct {
-	ep      *Epoll
-	fd      int
-	file    *File
-	events  uint32 // requested mask incl. EPOLLET / EPOLLRDHUP
-	data    [8]byte
-	seenSeq int // file.wakeSeq at the last report (edge-triggered)
+	ep            *Epoll
+	fd            int
+	file          *File
+	events        uint32 // requested mask incl. EPOLLET / EPOLLRDHUP
+	data          [8]byte
+	seenSeq       int // file.wakeSeq at the last report (edge-triggered)
+	staleReported bool
 }
 
 // Epoll is an epoll instance.
@@ -140,6 +142,16 @@ func (ep *Epoll) collect(k *Kernel, max int) []readyEvent {
 			it.seenSeq = it.file.wakeSeq
 		}
 		out = append(out, readyEvent{events: m, data: it.data, fd: it.fd})
+		// a registration that outlives its descriptor: the number was closed (or
+		// closed and re-used) but the open file description is kept alive by
+		// another descriptor, so the kernel keeps reporting it
+		if e := k.fds[it.fd]; (e == nil || e.file != it.file) && !it.staleReported && ep.file != nil {
+			it.staleReported = true
+			if h := k.hist[it.fd]; h != nil && strings.HasPrefix(h.closedBy, OwnFramework) {
+				k.Ledger = append(k.Ledger, LedgerEvent{Kind: "stale-registration", Call: "epoll_wait", Fd: it.fd, Task: k.taskName(),
+					Msg: fmt.Sprintf("epoll_wait reports events for descriptor %d, which the framework has closed without removing it from the poller (the registration survives because another descriptor still refers to the open file)", it.fd)})
+			}
+		}
 	}
 	return out
 }
